@@ -13,7 +13,8 @@ RULE = ("A case is a policy spec (RoundRobin | DCAwareRoundRobin(local_dc given 
         "WhiteListRoundRobin | HostFilterPolicy(child) | DefaultLoadBalancingPolicy(child)), <= 6 host slots in <= 3 DCs/racks and a history as the cluster delivers it: "
         "either the connect flow (populate with the contact-point hosts, whose dc/rack are still unknown, then the first node-list refresh: location updates as "
         "on_down; set_location_info; on_up and on_add for the peers) or the add_execution_profile flow (populate with every known host in metadata order, with their "
-        "DCs, followed by on_up for each host marked up), then up to 12 events up/down/add/remove/move (move = on_down; set_location_info; on_up; events whose "
+        "DCs, followed by on_up for each host marked up), then up to 12 events up/down/add/remove/move/bounce (move = on_down; set_location_info; on_up; bounce = down "
+        "then up; white lists are given by IP literal, by host NAME or by a name resolving to two hosts; events whose "
         "precondition does not hold -- up for an unknown host, add for a known one -- are skipped).  After populate and after every event two consecutive plans are "
         "compared with the model (live = last event was populate/up/add/move): no duplicates, only live hosts, every live LOCAL host present and before every REMOTE "
         "host, per remote DC exactly min(used, live) hosts (at most, under a HostFilterPolicy), distance() LOCAL/REMOTE/IGNORED agreeing with the plan, filtered / "
@@ -21,6 +22,7 @@ RULE = ("A case is a policy spec (RoundRobin | DCAwareRoundRobin(local_dc given 
         "followed by an add of the same slot.")
 ASSUMPTIONS = [
     "cassandra.policies.randint is substituted (round-robin start offset is part of the case); order inside the local / remote groups is free",
+    "name resolution is substituted: cassandra.policies sees a socket module whose getaddrinfo knows node<i>.test -> 10.0.0.<i+1> and pair<i>-<j>.test -> both",
     "hosts whose datacenter is not known yet count as local for DCAwareRoundRobinPolicy (its documented-by-code rule host.datacenter or local_dc)",
     "with local_dc='' the expected local DC is the DC of the first contact-point host that is reported up/added with a known DC",
     "event discipline is read off Cluster.connect / add_execution_profile / on_up / on_down / on_add / on_remove and ControlConnection._update_location_info",
@@ -64,7 +66,7 @@ class _Model(object):
         if kind == "rr":
             return "local"
         if kind == "whitelist":
-            return "local" if slot in spec["allowed"] else "excluded"
+            return "local" if slot in _white(spec) else "excluded"
         if kind == "dcaware":
             dc = self.loc[slot][0]
             if dc is None or dc == self.local_dc():
@@ -77,6 +79,11 @@ class _Model(object):
         if kind == "default":
             return self.classify(slot, spec["child"])
         raise HarnessError("unknown policy kind %r" % (kind,))
+
+
+def _white(spec):
+    """slots a white list lets through: literal addresses, names (by_name) and two-address names (pairs)"""
+    return set(spec["allowed"]) | set(i for p in spec.get("pairs", ()) for i in p)
 
 
 def _interleaved(dcs):
@@ -116,7 +123,7 @@ def interpret(case, ctx):
         leaf = leaf["child"]
     sub = "C21." + leaf["kind"]
     wsub = "C21.wrapper." + top
-    with _ring.pinned_random(case.get("randint", 0), 0):
+    with _ring.pinned_random(case.get("randint", 0), 0), _ring.fake_dns():
         md = Metadata()
         cps = [i for i in case.get("contact_points", []) if i < len(slots)]
         cluster = _ring.FakeCluster(md, [DefaultEndPoint(_ring.address(i)) for i in cps])
@@ -209,6 +216,10 @@ def interpret(case, ctx):
                     not_last_run.discard(i)
 
         removed_once = set()
+        named = set(leaf.get("by_name", ())) | set(i for p_ in leaf.get("pairs", ()) for i in p_) if leaf["kind"] == "whitelist" else set()
+        named_downed = set()
+        if named:
+            ctx.label("whitelist:by-name")
 
         def feats_for(offenders, dcs=()):
             """minimal structural features explaining a failure about these slots / DCs"""
@@ -217,6 +228,8 @@ def interpret(case, ctx):
                 f.append("filed-before-local_dc-discovery")
             if dca and (any(i in not_last_run for i in offenders) or any(d in split_dcs for d in dcs)):
                 f.append("dc-split-at-populate")
+            if named:
+                f.append("allowed-by-name" if any(i in named for i in offenders) else "allowed-by-address")
             return f
 
         def slot_of(h):
@@ -330,11 +343,22 @@ def interpret(case, ctx):
             return
         # ---- events
         nev = 0
+        events = []
         for ev in case["events"]:
+            if ev["op"] == "bounce":        # a node restart: marked down, then up again
+                events.extend([{"op": "down", "host": ev["host"]}, {"op": "up", "host": ev["host"]}])
+            else:
+                events.append(ev)
+        for ev in events:
             op, i = ev["op"], ev["host"]
             if i >= len(slots):
                 continue
             h = known.get(i)
+            if op == "up" and h is not None and i in named_downed:
+                named_downed.discard(i)
+                ctx.label("whitelist:named-host-down-then-up")
+            if op == "down" and h is not None and i in named and i in model.live:
+                named_downed.add(i)
             if op == "up" and h is not None:
                 if not deliver("on_up", h):
                     return
@@ -435,6 +459,11 @@ def s_case():
             st.fixed_dictionaries({"kind": st.just("dcaware"), "local_dc": st.sampled_from(DCS[:ndc] + [""]),
                                    "used": st.integers(0, 3)}),
             st.fixed_dictionaries({"kind": st.just("whitelist"), "allowed": subset.filter(lambda l: len(l) > 0)}),
+            # white list given (partly) by host NAME, possibly a name resolving to two hosts
+            st.builds(lambda allowed, named, pair: dict({"kind": "whitelist", "allowed": allowed,
+                                                        "by_name": [i for i in allowed if i in named] or allowed[:1]},
+                                                       **({"pairs": [pair]} if pair and pair[0] != pair[1] else {})),
+                      subset.filter(lambda l: len(l) > 0), subset, st.one_of(st.none(), st.lists(st.sampled_from(idxs), min_size=2, max_size=2))),
         )
         leaf = draw(leafs)
         wrap = draw(st.integers(0, 5))
@@ -461,12 +490,15 @@ def s_case():
             initial = initial[:draw(st.integers(1, n))] if draw(st.booleans()) else list(initial)
             initial_up = draw(st.lists(st.sampled_from([True, True, False, None]), min_size=1, max_size=n))
         op = st.one_of(
-            st.fixed_dictionaries({"op": st.sampled_from(["up", "down", "down", "add", "remove"]), "host": st.sampled_from(idxs)}),
+            st.fixed_dictionaries({"op": st.sampled_from(["up", "down", "down", "add", "remove", "bounce"]), "host": st.sampled_from(idxs)}),
             st.fixed_dictionaries({"op": st.just("move"), "host": st.sampled_from(idxs), "dc": st.sampled_from(DCS[:ndc]),
                                    "rack": st.sampled_from(["r0", "r1", "r2"])}),
             st.fixed_dictionaries({"op": st.just("add"), "host": st.sampled_from(idxs), "dc": st.sampled_from(DCS[:ndc]),
                                    "rack": st.sampled_from(["r0", "r1"])}))
         events.extend(draw(st.lists(op, max_size=12)))
+        if leaf["kind"] == "whitelist" and leaf.get("by_name") and draw(st.booleans()):
+            # by construction: a host allowed by NAME restarts (down, up) somewhere in the history
+            events.insert(draw(st.integers(0, len(events))), {"op": "bounce", "host": draw(st.sampled_from(leaf["by_name"]))})
         return {"policy": spec, "slots": slots, "flow": flow, "contact_points": list(cps), "initial": list(initial),
                 "initial_up": initial_up, "randint": draw(st.integers(0, 5)), "events": events, "plans": 2}
 
